@@ -455,6 +455,13 @@ class Topology(System):
             file_idxs = {node: total + count for count, node in enumerate(in_file)}
             for meta_node in meta_mol.nodes:
                 resname = meta_mol.nodes[meta_node]["resname"]
+                # a residue whose atoms came with the structure file keeps them; its
+                # centre in the file of residue positions is passed over
+                if resolution == 'meta_mol' and not meta_mol.nodes[meta_node].get("build", True)\
+                   and not meta_mol.nodes[meta_node].get("backmap", True):
+                    if total < max_coords:
+                        total += 1
+                    continue
                 # the fragment graph nodes are not sorted so we sort them by index
                 # as defined in the itp-file to capture cases, where the molecule
                 # graph nodes are permuted with respect to the index
